@@ -928,6 +928,9 @@ pub fn matrix_behaviour(r: &mut Rng, t: &mut Trace) {
                 json!({"op": "fac_add_native", "caller": role, "denom": "uc", "decimals": 9 + phase}),
                 json!({"op": "fac_migrate_pair", "caller": role, "contract": p0, "code_id": nul()}),
                 json!({"op": "fac_create_pair", "caller": role, "infos": [nat("uc"), nat("ua")], "commission": nul(), "whitelist": ["alice"], "min0": st(0), "min1": st(0)}),
+                // ... and with the caller listing itself in the whitelist of the pair it asks for (data of the very message
+                // being authorised)
+                json!({"op": "fac_create_pair", "caller": role, "infos": [nat("ub"), nat("uc")], "commission": st(D18 / 2), "whitelist": [role, "alice"], "min0": st(0), "min1": st(0)}),
                 json!({"op": "pair_update_decimals", "pair": p0, "caller": role, "denom": "ua", "decimals": [2, 2]}),
                 json!({"op": "pair_receive", "pair": p0, "caller": role, "sender": "mallory", "amount": st(10), "hook": {"kind": "withdraw"}, "funds": []}),
                 json!({"op": "pair_receive", "pair": p0, "caller": role, "sender": "mallory", "amount": st(10),
@@ -1154,6 +1157,18 @@ pub fn routes_behaviour(r: &mut Rng, t: &mut Trace) {
                     t.run(&mut w, json!({"op": "q_router_rev_fold", "amount": st(amount), "operations": route_ops(route)}));
                 }
                 t.run(&mut w, json!({"op": "q_router_sim_fold", "amount": st(1), "operations": route_ops(route)}));
+            }
+        }
+    }
+    // dust routes with the smallest meaningful minimum: the last hop may pay out nothing (a pair accepts a swap whose
+    // return rounds to zero), and then a minimum of 1 must make the whole route fail
+    for start in assets.iter() {
+        for hops in 1..=2usize {
+            for route in chains_from(&w, start, hops).iter().take(2) {
+                for (amount, min) in [(1u128, 1u128), (2, 1), (1, 0), (3, 2)] {
+                    let op = op_route(&w, "carol", route, amount, st(min), if amount == 2 { Value::String("bob".to_string()) } else { nul() });
+                    t.run(&mut w, op);
+                }
             }
         }
     }
